@@ -263,6 +263,45 @@ func init() {
 			} else {
 				obs = append(obs, mkOb(c, "PKG.use-all-exports", u, "export loop", rng, Violated, "an exported name can be skipped (a loop turn that neither binds it nor returns): use-package would not copy exactly the exported bindings", true))
 			}
+			// ... and no path answers `done` without having gone through the binding loop: use-package
+			// copies the exporter's bindings as they are NOW, every time it is called — a shortcut in
+			// front of the loop (a memo of what was imported before, a generation counter) leaves a name
+			// the importing package rebound since, or a binding the exporter changed, as it was
+			for _, b := range fc.G.Blocks {
+				if !fc.Live(b) || b == loop {
+					continue
+				}
+				for _, n := range b.Nodes {
+					rs, ok := n.(*ast.ReturnStmt)
+					if !ok || len(rs.Results) != 1 || c.isErrorValueCall(info, rs.Results[0], 0) {
+						continue
+					}
+					if ro := identObj(info, rs.Results[0]); ro != nil {
+						// `return v` behind `v.Type == LError`: an error handed on
+						tf := c.LookupField("lisp.LVal.Type")
+						lerr := c.Pkg("lisp").Types.Scope().Lookup("LError")
+						cut := fc.edgesEntailing(func(e ast.Expr) (string, bool) {
+							be, ok := ast.Unparen(e).(*ast.BinaryExpr)
+							if !ok || (be.Op != token.EQL && be.Op != token.NEQ) {
+								return "", false
+							}
+							se, ok := ast.Unparen(be.X).(*ast.SelectorExpr)
+							if !ok || FieldOfSelector(info, se) != tf || identObj(info, se.X) != ro || identObj(info, be.Y) != lerr {
+								return "", false
+							}
+							return "iserr", be.Op == token.NEQ
+						}, func(v map[string]bool) bool { return v["$has:iserr"] && v["iserr"] })
+						if len(cut) > 0 && !fc.reachableAvoiding(b, cut) {
+							continue
+						}
+					}
+					if fc.reachableFromAvoidingBlocks(fc.G.Blocks[0], b, map[*cfg.Block]bool{loop: true}) {
+						obs = append(obs, mkOb(c, "PKG.use-all-exports", u, "success only through the export loop", rs, Violated, "UsePackage can answer without an error on a path that never reaches the loop binding the exported names: whatever decides to skip it (a record of an earlier import) cannot know what the importing package rebound in between, so a second (use-package 'a) no longer restores a's bindings", true))
+					} else {
+						obs = append(obs, mkOb(c, "PKG.use-all-exports", u, "success only through the export loop", rs, Proved, "every path to this return passes the head of the loop over the export list", true))
+					}
+				}
+			}
 			return obs
 		}})
 
